@@ -477,6 +477,14 @@ macro_rules! reversed_views {
         c_adj(&Reversed($gref), &rv, &w)?;
         c_visitable(&Reversed($gref), &rv, &w)?;
         c_count(&Reversed($gref), &rv, &w)?;
+        // a reversed edge reference unwraps to the base reference: endpoints swapped back, same weight
+        for e in Reversed($gref).edge_references().take(2 * $a.m() + 4) {
+            let u = e.as_unreversed();
+            ck!(u.source() == e.target() && u.target() == e.source() && u.weight() == e.weight(), "reversed-edge-unwrap", "{w}: as_unreversed() of {:?}->{:?} is {:?}->{:?}", e.source(), e.target(), u.source(), u.target());
+            let (s0, t0) = (e.source(), e.target());
+            let o = e.into_unreversed();
+            ck!(o.source() == t0 && o.target() == s0, "reversed-edge-unwrap", "{w}: into_unreversed() of {s0:?}->{t0:?} is {:?}->{:?}", o.source(), o.target());
+        }
         let v = View::full($a, $ids.clone());
         let w = format!("Reversed<Reversed<&{}>>", $name);
         run_checks!(Reversed(Reversed($gref)), &v, &w; c_nodes, c_edge_refs, c_neighbors, c_neighbors_directed, c_edges, c_edges_directed);
